@@ -11,7 +11,9 @@ CLAIM = dict(
           "结束循环/继续循环 (never leave a loop, never leave a body), 每当 re-tests, first true branch, non-boolean conditions rejected, "
           "遍历 order 1..n / key order. Tie: generated nests of branches x 每当 x 遍历 with break/continue/输出 at every depth, inside and "
           "outside methods, numbered display markers around every statement, executed by the interpreter and by the model in Coq."),
-    note=semprop.TB + "non-terminating programs are outside the quantifier (model out-of-fuel runs are skipped and counted).",
+    note=semprop.TB + ("non-terminating programs are outside the quantifier (model out-of-fuel runs are skipped and counted); what 遍历 "
+                       "visits when the collection it runs over is changed inside the loop is not specified by the property: the model "
+                       "iterates over the pairs present when the loop starts and the generator does not change a collection inside its own loop."),
     technique="Coq proof (refinement of the slot/signal mechanism to outcome semantics, induction on fuel) + model/implementation correspondence",
     design="5/C02")
 
